@@ -821,7 +821,7 @@ def corpus():
 
 def generate(rng, tier):
     thorough = tier == 'thorough'
-    n_conn = 7000 if thorough else 420
+    n_conn = 5000 if thorough else 420
     for _ in range(n_conn):
         disable = rng.choice(DISABLE_SETS)
         k = rng.choice([1, 1, 2, 2, 3])
